@@ -64,7 +64,7 @@ pub trait GetTrailingTrivia {
 /// A comment that is collected to be re-attached elsewhere does not pass through the token formatter.
 /// A single line comment must still lose its trailing whitespace (and the `\r` of a CRLF line ending), as it
 /// does when it is formatted in place.
-fn normalise_moved_comment(trivia: &Token) -> Token {
+pub fn normalise_moved_comment(trivia: &Token) -> Token {
     match trivia.token_type() {
         TokenType::SingleLineComment { comment } => Token::new(TokenType::SingleLineComment {
             comment: comment.trim_end().into(),
